@@ -23,11 +23,14 @@ TraceReset == /\ IsEv("Reset")
               /\ reg' = <<>> /\ blobs' = {} /\ locks' = <<>> /\ res' = <<>> /\ marked' = {} /\ added' = {}
               /\ plog' = <<>> /\ left' = {} /\ hist' = {}
 
+PosIn(q, x) == IF \E k \in 1..Len(q) : q[k] = x THEN CHOOSE k \in 1..Len(q) : q[k] = x /\ \A m \in 1..(k - 1) : q[m] # x ELSE 0
 TraceRegGet ==
   /\ IsEv("REG.Get")
   /\ LET H == HOf(E.h) IN
        /\ \A n \in DOMAIN H : n \in DOMAIN reg /\ NormWip(H[n]) = NormWip(reg[n])
        /\ \A n \in SetOf(E.ids) \ DOMAIN H : n \notin DOMAIN reg
+  \* the handles come back in the order of the requested ids (callers match them to their nodes by position)
+  /\ \A i, j \in 1..Len(E.h) : i < j => PosIn(E.ids, E.h[i].l) < PosIn(E.ids, E.h[j].l)
   /\ UNCHANGED vars
 
 TraceRegAdd == IsEv("REG.Add") /\ RegAdd(E.t, HOf(E.h))
